@@ -5,6 +5,7 @@ package c13
 import (
 	"bytes"
 	"fmt"
+	"strings"
 
 	"verifharness/core"
 	"verifharness/lsharness"
@@ -25,6 +26,8 @@ func (prop) Rule() string {
 }
 
 var fixed = []core.Case{
+	{ID: "fix-known-gc-clamp", NT: true, Ops: strings.Split("put req 80 80:33; put req 80 81:fd83; put req 80 c0:d8; put req 80 40:698f; put req 81 10:48ad; put req 80 41:29; put req 80 81:d9c9; set pin 81 81,10,c0; put up - 41:0f,40:6607; put uppin 40 81:d0ac; put up - 40:89ec; cap 3; pyr 80 81:1,c0:1,40:1,01:1,41:1,10:1; pyr 81 c0:1; pyr 40 81:1,c0:1; gcsel; put up - 20:e7; gcevict", "; ")},
+	{ID: "fix-known-gc-recount", NT: true, Ops: strings.Split("put req 40 40:18a0; put req 40 80:4d0b; put req 40 81:09; put req 40 20:3a86; now 10 1; set unpin 40 c0; set unpin - -; cap 0; hasm pin 41,80,20; hasm pin 01,40; put req 40 10:a07a; put uppin 81 41:78; now 30 0; put uppin 40 40:207b; set remove - 01,41; put req 80 01:778d; set unpin 81 80; get req - 20; set unpin 20 20; gcsel; put uppin 80 01:7f,20:83,20:11; cap 4; pyr 80 01:1,20:1; pyr 81 80:1; pyr 40 10:2,81:1,41:1; gcsel; gcevict", "; ")},
 	{ID: "fix-batched-req", NT: true, Ops: []string{"put req 80 80:aa", "put req 80 81:bb,c0:cc", "reopen"}},
 	{ID: "fix-pin-repeated-chunk", NT: true, Ops: []string{"put req 40 40:01", "put req 80 80:aa", "put req 80 81:bb", "set pin 80 80", "set pin 80 81", "set pin 80 81", "reopen"}},
 	{ID: "fix-uppin-root", NT: true, Ops: []string{"put req 80 80:aa", "put req 80 81:bb", "put uppin 80 c0:cc", "reopen"}},
